@@ -73,9 +73,12 @@ func (p *dedupProcessor) Process(iqr *iqr.IQR) (*iqr.IQR, error) {
 
 RecordLoop:
 	for i := 0; i < numRecords; i++ {
-		hash := uint64(0)
+		// Combine the field hashes in an order dependent way (FNV-1a style).
+		// A plain XOR maps every (x, x) to 0 and (x, y) to the same value as
+		// (y, x), so distinct combinations were treated as duplicates.
+		hash := uint64(14695981039346656037)
 		for _, field := range p.options.FieldList {
-			hash ^= fieldToValues[field][i].Hash()
+			hash = (hash ^ fieldToValues[field][i].Hash()) * 1099511628211
 
 			if fieldToValues[field][i].Dtype == sutils.SS_DT_BACKFILL ||
 				fieldToValues[field][i].Dtype == sutils.SS_INVALID {
